@@ -237,11 +237,10 @@ class _ShapeList(list):
                 line = crtf_strings['polygon'].format(include, coord)
 
             elif shape.region_type == 'point':
-                if 'symbol' in shape.meta:
-                    line = crtf_strings['symbol'].format(
-                        include, *coord, symbol=shape.meta['symbol'])
-                else:
-                    line = crtf_strings['point'].format(include, *coord)
+                # CRTF has no "point" region: a point is a "symbol" region
+                # (the default symbol is ".", a point marker)
+                line = crtf_strings['symbol'].format(
+                    include, *coord, symbol=shape.meta.get('symbol', '.'))
 
             elif shape.region_type == 'ellipse':
                 coord[2:] = [x / 2 for x in coord[2:]]
